@@ -1,4 +1,5 @@
 import GrinVerif.Lemmas.PowRoom
+import GrinVerif.Lemmas.PowUSound
 /-! # C05 — PoW verification accepts exactly the simple cycles of the header-seeded graph
 
 All theorems are about the verifier models of `Model/Pow.lean` (transliterations of the five Rust
@@ -43,13 +44,101 @@ theorem verifyCuckaroom_sound (P : Params) (ep : Nat → Nat × Nat) (ns : List 
 
 /-- non-vacuity: a directed 4-cycle `0→1→2→3→0` is accepted -/
 example : verifyCuckaroom ⟨4, 3, 4, fun x => x % 8⟩ (fun n => (n, (n + 1) % 4)) [0, 1, 2, 3] = .ok () := by
-  rfl
+  decide +kernel
 
 /-- … and a 6-cycle whose edges are not in cycle order, with colliding buckets -/
 example : verifyCuckaroom ⟨6, 15, 6, fun x => x % 2⟩
     (fun n => match n with
       | 1 => (10, 30) | 3 => (50, 10) | 4 => (30, 20) | 7 => (20, 60) | 8 => (60, 40) | 9 => (40, 50)
       | _ => (0, 0)) [1, 3, 4, 7, 8, 9] = .ok () := by
-  rfl
+  decide +kernel
+
+/-! ## Cuckaroo, Cuckarooz, Cuckatoo (the shared "circular prev list" engine) -/
+
+/-- **Soundness of the Cuckaroo verifier**: `Ok` ⟹ exactly `proofsize` nonces, strictly ascending,
+all `≤ edge_mask`, and the edges form one simple cycle through all of them in the bipartite graph
+(vertices = (side, node)). -/
+theorem verifyCuckaroo_sound (P : Params) (ep : Nat → Nat × Nat) (ns : List Nat)
+    (h : verifyCuckaroo P ep ns = .ok ()) :
+    ns.length = P.proofsize ∧ Ascending ns ∧ (∀ x ∈ ns, x ≤ P.edgeMask) ∧
+      IsProofCycleCuckaroo (ns.map ep) := by
+  obtain ⟨h1, h2, h3, tr, h4⟩ := verifyU_cycle cfgCuckaroo mtEquiv_cuckaroo P ep ns (by simp [cfgCuckaroo]) h
+  refine ⟨h1, h2, h3, tr, ?_⟩
+  rw [List.length_map]
+  refine h4.mono ?_ ?_
+  · intro a b hp
+    obtain ⟨⟨_, _, hk⟩, hm, _, _⟩ := hp
+    simp only [keyF, cfgCuckaroo] at hk
+    simp only [cfgCuckaroo, beq_iff_eq] at hm
+    exact ⟨by unfold sameSide; omega, hm.symm⟩
+  · intro a b hv
+    obtain ⟨hs, hn⟩ := hv
+    unfold sameSide at hs
+    have hn' : uvF ep ns a = uvF ep ns b := hn
+    simp only [keyF, cfgCuckaroo, hs, hn', beq_self_eq_true, and_self]
+
+/-- **Soundness of the Cuckarooz verifier** (one node space), for a context whose `proof_size`
+is the global proof size — which is how `pow::verify_size` builds it. -/
+theorem verifyCuckarooz_sound (P : Params) (ep : Nat → Nat × Nat) (ns : List Nat)
+    (hctx : P.ctxProofSize = P.proofsize)
+    (h : verifyCuckarooz P ep ns = .ok ()) :
+    ns.length = P.proofsize ∧ Ascending ns ∧ (∀ x ∈ ns, x ≤ P.edgeMask) ∧
+      IsProofCycleCuckarooz (ns.map ep) := by
+  obtain ⟨h1, h2, h3, tr, h4⟩ := verifyU_cycle cfgCuckarooz mtEquiv_cuckarooz P ep ns (fun _ => hctx) h
+  refine ⟨h1, h2, h3, tr, ?_⟩
+  rw [List.length_map]
+  refine h4.mono ?_ ?_
+  · intro a b hp
+    obtain ⟨_, hm, _, _⟩ := hp
+    simp only [cfgCuckarooz, beq_iff_eq] at hm
+    exact hm.symm
+  · intro a b hv
+    have hn' : uvF ep ns a = uvF ep ns b := hv
+    simp only [keyF, cfgCuckarooz, hn', beq_self_eq_true, and_self]
+
+/-- **Soundness of the Cuckatoo verifier**: vertices are (side, node >> 1); consecutive edges of
+the cycle meet in nodes that differ exactly in the lowest bit. -/
+theorem verifyCuckatoo_sound (P : Params) (ep : Nat → Nat × Nat) (ns : List Nat)
+    (h : verifyCuckatoo P ep ns = .ok ()) :
+    ns.length = P.proofsize ∧ Ascending ns ∧ (∀ x ∈ ns, x ≤ P.edgeMask) ∧
+      IsProofCycleCuckatoo (ns.map ep) := by
+  obtain ⟨h1, h2, h3, tr, h4⟩ := verifyU_cycle cfgCuckatoo mtEquiv_cuckatoo P ep ns (by simp [cfgCuckatoo]) h
+  refine ⟨h1, h2, h3, tr, ?_⟩
+  rw [List.length_map]
+  refine h4.mono ?_ ?_
+  · intro a b hp
+    obtain ⟨⟨_, _, hk⟩, hm, _, hd⟩ := hp
+    simp only [keyF, cfgCuckatoo] at hk
+    simp only [cfgCuckatoo, beq_iff_eq, shr_one] at hm
+    have hne := hd rfl
+    refine ⟨by unfold sameSide; omega, ?_⟩
+    rcases eq_or_xor_of_half _ _ hm.symm with e | e
+    · exact absurd e.symm hne
+    · exact e
+  · intro a b hv
+    obtain ⟨hs, hn⟩ := hv
+    unfold sameSide at hs
+    have hn' : uvF ep ns a >>> 1 = uvF ep ns b >>> 1 := hn
+    simp only [keyF, cfgCuckatoo, hs, hn', beq_self_eq_true, and_self]
+
+/-- non-vacuity: a 4-cycle `u0 -e0- v0 -e1- u1 -e2- v1 -e3- u0` is accepted by Cuckaroo … -/
+example : verifyCuckaroo ⟨4, 7, 4, fun x => x % 8⟩
+    (fun n => match n with | 0 => (5, 9) | 2 => (6, 9) | 5 => (6, 3) | 7 => (5, 3) | _ => (0, 0))
+    [0, 2, 5, 7] = .ok () := by decide +kernel
+/-- … by Cuckarooz (one node space, a 4-cycle `1-2-3-4-1`) … -/
+example : verifyCuckarooz ⟨4, 7, 4, fun x => x % 8⟩
+    (fun n => match n with | 0 => (1, 2) | 2 => (3, 2) | 5 => (3, 4) | 7 => (1, 4) | _ => (0, 0))
+    [0, 2, 5, 7] = .ok () := by decide +kernel
+/-- … and by Cuckatoo (edge ends pair up as `x`, `x ^ 1`). -/
+example : verifyCuckatoo ⟨4, 7, 4, fun x => x % 8⟩
+    (fun n => match n with | 0 => (4, 8) | 2 => (6, 9) | 5 => (7, 2) | 7 => (5, 3) | _ => (0, 0))
+    [0, 2, 5, 7] = .ok () := by decide +kernel
+
+/-- The hypothesis of `verifyCuckarooz_sound` is needed: a Cuckarooz context built with
+`proof_size = 2` while `global::proofsize() = 4` accepts two disjoint 2-cycles (the real code does
+the same, harness case `twohalves-ctx4`; `pow::verify_size` never builds such a context). -/
+example : verifyCuckarooz ⟨4, 7, 2, fun x => x % 8⟩
+    (fun n => match n with | 0 => (1, 2) | 2 => (1, 2) | 5 => (3, 4) | 7 => (3, 4) | _ => (0, 0))
+    [0, 2, 5, 7] = .ok () := by decide +kernel
 
 end GV.Props.C05
